@@ -149,8 +149,10 @@ class SpecMixin:
             t = self.truthy(self.eval(e, frame))
             if ts and side is not None and len(side) > mark:
                 guard = z3.And(*ts) if is_and else z3.Not(z3.Or(*ts))
+                defs = self.__dict__.get("_defn_ids", ())
                 for k in range(mark, len(side)):
-                    side[k] = z3.Implies(guard, side[k])
+                    if side[k].get_id() not in defs:
+                        side[k] = z3.Implies(guard, side[k])
             ts.append(t)
         return TV("bool", z3.And(*ts) if is_and else z3.Or(*ts))
 
@@ -463,6 +465,8 @@ class SpecMixin:
                 else:
                     eq = t == self.to_val(d)
                 self.spec_side.append(eq)
+                # a definitional equation holds for all arguments: never guarded by the context it occurs in
+                self.__dict__.setdefault("_defn_ids", set()).add(eq.get_id())
             finally:
                 self._unfold_depth = depth
         if sf.facts and not getattr(self, "_in_facts", False):
@@ -476,7 +480,9 @@ class SpecMixin:
                     fr.vars[pn] = a
                 for ftxt in sf.facts:
                     if self.spec_side is not None:
-                        self.spec_side.append(self.truthy(self.eval(parse_expr(ftxt), fr)))
+                        f_ = self.truthy(self.eval(parse_expr(ftxt), fr))
+                        self.spec_side.append(f_)
+                        self.__dict__.setdefault("_defn_ids", set()).add(f_.get_id())
             finally:
                 self._in_facts = False
                 self._unfold_depth = saved_depth
